@@ -1,4 +1,5 @@
 import ArtapModel.Proofs.Swarm
+import ArtapModel.Proofs.SwarmRun
 /-!
 # C18 — swarm invariants: personal best, velocity clamp, position update, leader archive
 
@@ -126,7 +127,7 @@ end leaders
 /-- The leader archive of the code (`Archive()`: ε comparator, here with any positive
 epsilons), from the empty archive: at most `n` leaders after every generation… -/
 theorem leaders_bounded (eps : List Rat) (he : PosEps eps) (m n : Nat)
-    (sws : List (List (Ind Rat))) (hV : ∀ sw ∈ sws, ∀ x ∈ sw, x.costs.length = m ∧ 0 ≤ x.marker) :
+    (sws : List (List (Archive.Ind Rat))) (hV : ∀ sw ∈ sws, ∀ x ∈ sw, x.costs.length = m ∧ 0 ≤ x.marker) :
     ∃ t, generations (epsCmp eps) sameCosts Ind.feat n [] sws = some t ∧ t.length = sws.length ∧
       ∀ l ∈ t, l.length ≤ n := by
   obtain ⟨t, h1, h2, h3⟩ := generations_spec (eps_cmpSpec eps he m) Ind.feat n (sws := sws)
@@ -135,7 +136,7 @@ theorem leaders_bounded (eps : List Rat) (he : PosEps eps) (m n : Nat)
 
 /-- … which are mutually non-dominated and carry pairwise different signed-cost vectors. -/
 theorem leaders_nondominated (eps : List Rat) (he : PosEps eps) (m n : Nat)
-    (sws : List (List (Ind Rat))) (hV : ∀ sw ∈ sws, ∀ x ∈ sw, x.costs.length = m ∧ 0 ≤ x.marker) :
+    (sws : List (List (Archive.Ind Rat))) (hV : ∀ sw ∈ sws, ∀ x ∈ sw, x.costs.length = m ∧ 0 ≤ x.marker) :
     ∃ t, generations (epsCmp eps) sameCosts Ind.feat n [] sws = some t ∧
       ∀ l ∈ t, l.Pairwise (fun a b => ¬ KeyDom (key a) (key b) ∧ ¬ KeyDom (key b) (key a) ∧
         key a ≠ key b) := by
@@ -158,7 +159,7 @@ example : speedConstriction 7 2 (-1) = 3 / 2 ∧ speedConstriction (-7) 2 (-1) =
 example : updatePosition (-1) 1 5 0 2 = (2, -5) ∧ updatePosition (1 / 1000) 0 (-9) (-1) 1 = (-1, -9 / 1000)
     ∧ updatePosition (-1) 1 (1 / 2) 0 2 = (3 / 2, 1 / 2) := by decide +kernel
 -- hypotheses of `leaders_bounded` / `leaders_nondominated`: two generations of valid particles
-example : ∀ sw ∈ [[(⟨0, [1, 5], 1, 3⟩ : Ind Rat), ⟨1, [3, 3], 1, 9⟩, ⟨2, [2, 4], 1, 5⟩],
+example : ∀ sw ∈ [[(⟨0, [1, 5], 1, 3⟩ : Archive.Ind Rat), ⟨1, [3, 3], 1, 9⟩, ⟨2, [2, 4], 1, 5⟩],
     [⟨3, [0, 9], 1, 1⟩, ⟨4, [2, 2], 1, 7⟩]], ∀ x ∈ sw, x.costs.length = 2 ∧ 0 ≤ x.marker := by
   decide
 -- the additions of the first generation (before the truncation), computed by the model
@@ -167,5 +168,218 @@ example :
       [⟨0, [1, 5], 1, 3⟩, ⟨1, [3, 3], 1, 9⟩, ⟨2, [2, 4], 1, 5⟩, ⟨4, [2, 2], 1, 7⟩]).map
       (fun r => (r.1.map Ind.id, r.2)) = some ([0, 4], [true, true, true, true]) := by
   decide +kernel
+
+/-! ## Run level: the composed OMOPSO / SMPSO generation loops (`Model/SwarmRun.lean`)
+
+`swarmRun cfg G init steps` is `OMOPSO.run()` (`cfg.alg = .omopso`, `omopsoRun`) or `SMPSO.run()`
+(`cfg.alg = .smpso`, `smpsoRun`) with `max_population_number = G` on the initial vectors `init`;
+`steps` are the oracles of the iterations (per particle: the chosen leader, `r1 r2 c1 c2`, the value
+of `khi`, one inertia draw per coordinate; per mutated particle which coordinates the mutator hits
+and the values it hands to `clip`), `cfg.env` is the evaluator's oracle (objective, fault pattern,
+re-rolled vectors).  All theorems hold for **every** population size, number of generations, box,
+oracle and fault pattern, whenever the run ends (`= some r`; `none` = an exception ends the real
+run, or the oracles do not fit it).  `r.history` holds every phase result of every generation. -/
+section RunModel
+open Artap.SwarmRun Artap.Eval Artap.Variation
+
+/-- `OMOPSO.run()` and `SMPSO.run()` are the two instances of `swarmRun`. -/
+theorem swarm_run_instances (cfg : Cfg) (G : Nat) (init : List Vec) (steps : List StepOracle) :
+    omopsoRun cfg G init steps = swarmRun { cfg with alg := .omopso } G init steps ∧
+    smpsoRun cfg G init steps = swarmRun { cfg with alg := .smpso } G init steps := ⟨rfl, rfl⟩
+
+/-- **Every design evaluated during an OMOPSO / SMPSO run lies inside the box.**  Box with
+`lb ≤ ub` (and tolerances `≥ 0`), initial vectors and re-rolled vectors within the generator's
+tolerance.  In every generation `≥ 1`: every position after `update_position` and every position
+handed to the evaluator (after `turbulence`) lies *exactly* inside `[lb, ub]`, with the dimension
+of the box; every evaluated / recorded position does too, unless it was re-rolled by the sampler
+after a failed call (then it is within the tolerance), and always when the objective never fails;
+every recorded design and every vector the objective was ever called with is within the tolerance. -/
+theorem swarm_run_in_box (cfg : Cfg) (G : Nat) (init : List Vec) (steps : List StepOracle) (r : RunResult)
+    (hb : ∀ p ∈ cfg.params, p.lb ≤ p.ub ∧ 0 ≤ p.tol)
+    (hinit : ∀ v ∈ init, inBox cfg.params v = true)
+    (hre : ∀ k n, inBox cfg.params (cfg.env.reroll k n) = true)
+    (h : swarmRun cfg G init steps = some r) :
+    (∀ g ∈ r.history, 1 ≤ g.tag →
+      (∀ p ∈ g.posAfter, inBoxExact cfg.params p.d.vec = true) ∧
+      (∀ p ∈ g.handed, inBoxExact cfg.params p.d.vec = true) ∧
+      (∀ p ∈ g.evaluated, inBoxExact cfg.params p.d.vec = true ∨ ∃ k n, p.d.vec = cfg.env.reroll k n)) ∧
+    (∀ p ∈ r.recorded, 1 ≤ p.tag →
+      (inBoxExact cfg.params p.d.vec = true ∨ ∃ k n, p.d.vec = cfg.env.reroll k n) ∧
+      ((∀ k n v t, cfg.env.obj k n v ≠ .transient t) → inBoxExact cfg.params p.d.vec = true)) ∧
+    (∀ p ∈ r.recorded, inBox cfg.params p.d.vec = true) ∧
+    (∀ e ∈ r.world.log, inBox cfg.params e.2 = true) := by
+  obtain ⟨s, I, hrec, _, hw, _, _, hh⟩ := swarmRun_induct (cfg := cfg) (fun _ s => BoxInv cfg s)
+    (fun s0 h0 => box_init hre hinit h0) (fun it o s s' I hs => box_step hb hre I hs) h
+  rw [hrec, hw, hh]
+  refine ⟨fun g hg h1 => ?_, fun p hp h1 => I.recd p hp h1, I.recAll, I.log⟩
+  obtain ⟨a, b, c⟩ := I.hist g hg h1
+  exact ⟨a, b, fun p hp => (c p hp).1⟩
+
+/-- **After every velocity update every component is within ± half the parameter range**: for
+every generation and every particle, the velocity that `update_velocity` leaves has one component
+per coordinate and `−(ub−lb)/2 ≤ vᵢ ≤ (ub−lb)/2` – whatever the draws, the leader, `khi` and the
+inertia weights are. -/
+theorem swarm_run_velocity_clamped (cfg : Cfg) (G : Nat) (init : List Vec) (steps : List StepOracle)
+    (r : RunResult) (hb : ∀ p ∈ cfg.params, p.lb ≤ p.ub) (h : swarmRun cfg G init steps = some r) :
+    ∀ g ∈ r.history, ∀ p ∈ g.velAfter, p.vel.length = p.d.vec.length ∧
+      ∀ pc ∈ List.zip cfg.params p.vel, -((pc.1.ub - pc.1.lb) / 2) ≤ pc.2 ∧ pc.2 ≤ (pc.1.ub - pc.1.lb) / 2 := by
+  obtain ⟨s, I, _, _, _, _, _, hh⟩ := swarmRun_induct (cfg := cfg) (fun _ s => VelInv cfg s)
+    (fun s0 h0 => vel_init h0) (fun it o s s' I hs => vel_step hb I hs) h
+  rw [hh]
+  exact I
+
+/-- **Budget and generations.**  `N` initial vectors: a run that ends recorded generations
+`0..G` of exactly `N` particles each (nothing under another tag), made `N·(G+1)` successful
+objective evaluations (every other call failed and is on `Problem.failed`), and went through
+exactly `G + 1` generations (tags `0, 1, …, G` in this order), each of which handed `N` particles
+to the evaluator. -/
+theorem swarm_run_budget_generations (cfg : Cfg) (G : Nat) (init : List Vec) (steps : List StepOracle)
+    (r : RunResult) (hN : init.length = cfg.N) (h : swarmRun cfg G init steps = some r) :
+    r.evals = cfg.N * (G + 1) ∧ r.world.log.length = r.world.failed.length + cfg.N * (G + 1) ∧
+    (∀ p ∈ r.recorded, p.tag ≤ G) ∧ (∀ t, t ≤ G → (genP t r.recorded).length = cfg.N) ∧
+    r.history.map (·.tag) = List.range (G + 1) ∧
+    (∀ g ∈ r.history, g.handed.length = cfg.N ∧ g.evaluated.length = cfg.N ∧ g.swarm.length = cfg.N) ∧
+    r.swarm.length = cfg.N := by
+  obtain ⟨s, I, hrec, hev, hw, hsw, _, hh⟩ := swarmRun_induct (cfg := cfg) (fun k s => BookInv cfg k s)
+    (fun s0 h0 => book_init hN h0) (fun it o s s' I hs => book_step I hs) h
+  rw [hrec, hev, hw, hh, hsw]
+  refine ⟨?_, I.count, I.tags, I.sizes, I.htags, I.hsizes, I.size⟩
+  unfold Nsga2.okCalls
+  have := I.count
+  omega
+
+/-- **Leaders.**  Positive ε of the leader archive, every successful objective call returns `m`
+costs: after every generation (the initial one included) the leader archive has at most `N`
+members, all evaluated, mutually non-dominated (constrained Pareto dominance on their signed
+costs) and with pairwise different signed-cost vectors – lift of
+`leaders_bounded_and_nondominated` to the run, with the comparator hypotheses discharged. -/
+theorem swarm_run_leaders (cfg : Cfg) (G : Nat) (init : List Vec) (steps : List StepOracle) (r : RunResult)
+    (m : Nat) (he : PosEps cfg.eps) (hc : ∀ k n v c, cfg.env.obj k n v = .ok c → c.length = m)
+    (h : swarmRun cfg G init steps = some r) :
+    ∀ g ∈ r.history, g.leaders.length ≤ cfg.N ∧
+      (∀ a ∈ g.leaders, ∃ mk, a.d.marker = some mk ∧ 0 ≤ mk) ∧
+      g.leaders.Pairwise (fun a b =>
+        ¬ KeyDom (key (toInd a)) (key (toInd b)) ∧ ¬ KeyDom (key (toInd b)) (key (toInd a)) ∧
+        (a.d.signed, a.d.marker) ≠ (b.d.signed, b.d.marker)) := by
+  obtain ⟨s, I, _, _, _, _, _, hh⟩ := swarmRun_induct (cfg := cfg)
+    (fun _ s => LeadInv cfg (signedLen cfg.env m) s)
+    (fun s0 h0 => lead_init he hc h0) (fun it o s s' I hs => lead_step he hc I hs) h
+  rw [hh]
+  intro g hg
+  obtain ⟨hlen, hV, hP⟩ := I.hist g hg
+  refine ⟨hlen, fun a ha => ?_, hP.imp ?_⟩
+  · obtain ⟨mk, h1, h2, _⟩ := hV a ha
+    exact ⟨mk, h1, h2⟩
+  · intro a b hab
+    refine ⟨hab.1, hab.2.1, fun e => ?_⟩
+    have hs : sameP a b = true := by
+      simp only [Prod.mk.injEq] at e
+      simp [sameP, e.1, e.2]
+    rw [hab.2.2.1] at hs
+    exact absurd hs (by simp)
+
+/-- **Personal best.**  Every successful objective call returns `m` costs.  At every iteration
+and for every particle: with `cur` = (signed costs, marker) of the evaluated position and `b` the
+personal best it carried (copied from the previous generation), `update_particle_best` replaces
+best cost *and* best vector by the new position unless the old best dominates it, in which case
+both are kept – lift of `pbest_replaced_unless_dominated` to every step of the run.  In
+generation `0` the personal best is the particle's own evaluated position (`init_pbest`). -/
+theorem swarm_run_pbest (cfg : Cfg) (G : Nat) (init : List Vec) (steps : List StepOracle) (r : RunResult)
+    (m : Nat) (hc : ∀ k n v c, cfg.env.obj k n v = .ok c → c.length = m)
+    (h : swarmRun cfg G init steps = some r) :
+    (∀ g ∈ r.history, 1 ≤ g.tag → List.Forall₂ (fun e q => ∃ mk b, e.d.marker = some mk ∧ e.best = some b ∧
+      (¬ KeyDom b (e.d.signed, mk) → q.best = some (e.d.signed, mk) ∧ q.bestVec = e.d.vec) ∧
+      (KeyDom b (e.d.signed, mk) → q.best = some b ∧ q.bestVec = e.bestVec)) g.evaluated g.pbest) ∧
+    (∀ g ∈ r.history, g.tag = 0 → g.pbest = g.evaluated.map initPbest) := by
+  obtain ⟨s, I, _, _, _, _, _, hh⟩ := swarmRun_induct (cfg := cfg)
+    (fun _ s => PbInv (signedLen cfg.env m) s)
+    (fun s0 h0 => pb_init hc h0) (fun it o s s' I hs => pb_step hc I hs) h
+  rw [hh]
+  refine ⟨fun g hg h1 => (I.hist g hg h1).imp ?_, I.hist0⟩
+  rintro e q ⟨mk, b, h1, h2, h3, h4, h5⟩
+  have key := pbest_replaced_unless_dominated (e.d.signed, mk) b h3
+  refine ⟨mk, b, h1, h2, fun hn => ?_, fun hd => ?_⟩
+  · have e1 := key.1 hn
+    have hr : Swarm.pbestReplaced (e.d.signed, mk) b = true := by
+      by_contra hf
+      apply hn
+      apply (verdict_two_iff (e.d.signed, mk) b h3).1
+      simpa [Swarm.pbestReplaced] using hf
+    rw [h4, h5, e1, hr]; simp
+  · have e1 := key.2 hd
+    have hr : Swarm.pbestReplaced (e.d.signed, mk) b = false := by
+      have h2' := (verdict_two_iff (e.d.signed, mk) b h3).2 hd
+      simp [Swarm.pbestReplaced, h2']
+    rw [h4, h5, e1, hr]; simp
+
+/-! ### Non-vacuity of the run-model theorems
+
+A concrete run with `N = 1`, `G = 2` in the box `[0, 1]`, one objective `f x = [x₀]`: the initial
+particle is at `1/2`; iteration 0 moves it to `11/20`, the first call of the new design object fails
+and it is re-rolled to `1/4` (the re-roll alternative of `swarm_run_in_box`), which replaces the
+personal best; iteration 1 moves it to `11/40`, turbulence hits the coordinate with the value `7`,
+which `clip` puts on the bound `1` – dominated by the personal best `1/4`, which is kept.  Both
+algorithms: 3 = N·(G+1) successful evaluations out of 4 calls, tags `0 1 2`.  (Populations whose
+leader archive or crowding sort holds two or more members cannot be evaluated by the kernel –
+`List.mergeSort` is defined by well-founded recursion – so the concrete instance is a one-particle swarm.) -/
+section NonVacuity
+
+def exEnv : Env :=
+  { obj := fun key n v => if key = 1 ∧ n = 0 then .transient 0 else .ok [v.headD 0],
+    reroll := fun _ _ => [1 / 4], cons := fun _ => [], signs := [1], rnd := fun _ y => y }
+
+def exCfg (a : Alg) : Cfg :=
+  { alg := a, env := exEnv, prec := 7, N := 1, params := [⟨0, 1, 0⟩], eps := [1 / 10, 1 / 10], epsA := [1 / 100] }
+
+def exDraw (l : List Rat) : VelDraw :=
+  { leader := (l, 1), r1 := 1 / 2, r2 := 1 / 2, c1 := 2, c2 := 2, khi := 1, w := [1 / 10] }
+
+def exSteps : List StepOracle :=
+  [{ vel := [exDraw [1 / 2]], turb := [[⟨false, 0⟩]] }, { vel := [exDraw [1 / 4]], turb := [[⟨true, 7⟩]] }]
+
+/-- the recorded designs `(tag, position)` and the personal bests after every generation -/
+def exSummary (r : RunResult) : Bool :=
+  r.evals == 3 && r.world.log.length == 4 &&
+  r.recorded.map (fun p => (p.tag, p.d.vec)) == [(0, [1 / 2]), (1, [1 / 4]), (2, [1])] &&
+  r.history.map (fun g => g.pbest.map (·.best)) ==
+    [[some ([1 / 2], 1)], [some ([1 / 4], 1)], [some ([1 / 4], 1)]] &&
+  r.history.map (fun g => g.velAfter.map (·.vel)) == [[], [[1 / 20]], [[1 / 40]]] &&
+  r.history.map (fun g => g.leaders.map (·.d.signed)) == [[[1 / 2]], [[1 / 4]], [[1 / 4]]]
+
+example : (swarmRun (exCfg .smpso) 2 [[1 / 2]] exSteps).map exSummary = some true := by decide +kernel
+example : (swarmRun (exCfg .omopso) 2 [[1 / 2]] exSteps).map exSummary = some true := by decide +kernel
+
+-- the hypotheses of the five theorems on this instance
+example (a : Alg) : (∀ p ∈ (exCfg a).params, p.lb ≤ p.ub ∧ 0 ≤ p.tol) ∧
+    (∀ v ∈ [[(1 / 2 : Rat)]], inBox (exCfg a).params v = true) ∧
+    (∀ k n, inBox (exCfg a).params ((exCfg a).env.reroll k n) = true) ∧
+    [[(1 / 2 : Rat)]].length = (exCfg a).N := by
+  have h1 : inBox [⟨0, 1, 0⟩] [1 / 4] = true := by decide +kernel
+  have h2 : inBox [⟨0, 1, 0⟩] [1 / 2] = true := by decide +kernel
+  have h3 : (0 : Rat) ≤ 1 ∧ (0 : Rat) ≤ 0 := by decide +kernel
+  refine ⟨?_, ?_, fun _ _ => h1, rfl⟩
+  · intro p hp
+    simp only [exCfg, List.mem_singleton] at hp
+    subst hp
+    exact h3
+  · intro v hv
+    simp only [List.mem_singleton] at hv
+    subst hv
+    exact h2
+
+example (a : Alg) : PosEps (exCfg a).eps ∧ ∀ k n v c, (exCfg a).env.obj k n v = .ok c → c.length = 1 := by
+  refine ⟨⟨by simp [exCfg], ?_⟩, ?_⟩
+  · intro e he
+    simp only [exCfg, List.mem_cons, List.not_mem_nil, or_false] at he
+    rcases he with rfl | rfl <;> decide +kernel
+  · intro k n v c h
+    simp only [exCfg, exEnv] at h
+    split at h
+    · cases h
+    · cases h; rfl
+
+end NonVacuity
+
+end RunModel
 
 end Artap.C18
